@@ -23,6 +23,7 @@ CHECKS = {
  "C14": ("happens-before race analysis in TLA+ (spec/TraceSync.tla: vector clocks over recorded lock / thread / descriptor synchronisation, FastTrack-style per-byte epochs) evaluated by TLC on compiler-instrumented access traces of multi-threaded scenario programs", "4/C14"),
  "C18": ("ownership state machine spec/MonRes.tla (heap blocks, descriptors, lent user objects, tls hooks, fcntl flags) evaluated by TLC on access / acquire / release traces of the instrumented build over repeated init/use/deinit cycles and thread churn", "4/C18"),
  "C20": ("TLC model checking of spec/IvInotify.tla composed with MonInotify (+ five model variants rejected), BFS-complete spec-generated handler-reaction programs and random scripts on real inotify, traces validated by TLC (TraceInotify)", "4/C20"),
+ "C16": ("TLA+ transcription spec/IvAvl.tla of iv_avl.c, TLC one-step exploration from every balanced shape (H<=4 quick, H=5 thorough) with all invariants, every (shape, operation, result) triple replayed on the real code and compared field by field, random real histories validated step by step by TLC (TraceAvl: invariants = verdict, lock-step = drift)", "4/C16"),
  "C17": ("TLC model checking of spec/IvPump.tla composed with MonPump (BufSize 4, both modes, RELAY_EOF on/off), BFS-complete spec-generated environment programs + random chunkings replayed on the real pump with scripted read/write/splice results, traces validated by TLC (TracePump: MonPump verdicts + lock-step on bytes/full/saw_fin)", "4/C17"),
  "C19": ("TLC model checking of spec/IvPopen.tla (three child policies, liveness Terminates) composed with MonSig + simulated children and virtual time on the real code, traces validated against MonSig rules C19:*", "4/C19"),
 }
@@ -36,7 +37,7 @@ m = {
            "source_commits": [], "add_only": True},
  "engines": [{"name": "tlc-trace-validation", "path": "spec/TraceCore.tla", "serves_properties": sorted(CHECKS),
               "kind_free_text": "TLA+ monitors (spec/MonCore.tla, MonWork.tla, MonSig.tla via spec/TraceAll.tla) evaluated by TLC on ndjson traces recorded from the real library under the virtual kernel"},
-             {"name": "tlc-model-checking", "path": "spec/", "serves_properties": ["C05", "C08", "C09", "C10", "C11", "C12", "C13", "C17", "C19", "C20"],
+             {"name": "tlc-model-checking", "path": "spec/", "serves_properties": ["C05", "C08", "C09", "C10", "C11", "C12", "C13", "C16", "C17", "C19", "C20"],
               "kind_free_text": "TLC exhaustive model checking of the implementation-shaped system models IvEvent, IvRaw, IvWork, IvSignal, IvWait, IvPopen"}],
  "checks": [], "not_applicable": [],
  "notes": "bin/check <id> --tier quick|thorough; see DESIGN.md",
